@@ -243,6 +243,7 @@ func (self *StreamDecoder) setErr(err error) {
 	self.err = err
 	mem := self.buf[:0]
 	self.buf = nil
+	self.scanp = 0
 	freeBytes(mem)
 }
 
